@@ -516,12 +516,13 @@ def run(ctx):
     nmax = 8 if quick else 9
     enum = [(b, nmax, 12) for b in small1]
     enum += [(b, nmax, 12) for b in (rng.sample(triples1, 250) if quick else triples1)]
-    enum += [(b, nmax, 0) for b in designed[: (60 if quick else 600)]]
-    ctx.run("C13.enumeration", enum, chunk=8,
-            rule=f"non-empty bases without the empty perm; finite => empty at the Erdos-Szekeres bound and one beyond; "
-                 f"infinite => non-empty up to {nmax}; non-polynomial => |Av_n| >= 1,1,2,3,5,8,... up to {nmax}; "
+    rule_enum = (f"non-empty bases without the empty perm; finite => empty at the Erdos-Szekeres bound and one beyond; "
+                 f"infinite => non-empty up to N; non-polynomial => |Av_n| >= 1,1,2,3,5,8,... up to N; N = {nmax} for bases "
+                 f"of perms <= 4, {nmax - 1} for the seeded bases with perms of length 5; "
                  f"polynomial (bases of perms <= 4 only) => differences of some order constant on three consecutive lengths "
                  f"<= 12 (inconclusive when a level exceeds {POLY_CAP} perms first)")
+    ctx.run("C13.enumeration", enum, chunk=4, rule=rule_enum)
+    ctx.run("C13.enumeration", [(b, nmax - 1, 0) for b in designed[: (60 if quick else 600)]], chunk=1)
     ctx.assumptions += [
         "B layer: bounded; structure theorems (Erdos-Szekeres, Kaiser-Klazar/Huczynska-Vatter/Homberger-Vatter ten "
         "classes, Albert-Linton-Ruskuc four classes) are used as stated, not proved",
